@@ -1,5 +1,7 @@
 import Xp.Base.JsonIO
 import Xp.Model.C15
+import Xp.Model.C15Tee
+import Xp.Model.C15Split
 namespace Xp.C15
 open Lean (Json)
 open Xp.IOx
@@ -29,15 +31,65 @@ def leftOf : String → Option Left
   | "full" => some .full
   | _ => none
 
-def revOf (j : Json) : Rev :=
-  let img := str j "img"
-  { ptype := ptypeOf (str j "ptype"), key := str j "key", skey := str j "skey", source := str j "source",
-    docs := (arr j "docs").map docOf,
-    imgOk := img != "twoann" && img != "nofile" && img != "toomany",
-    never := bool j "never", ignore := bool j "ignore" }
+/-- the stream the harness puts into files that must NOT be selected: a package of the
+revision's own type, so that it would pass every gate -/
+def decoyDocs (t : PType) : List Doc :=
+  match t with
+  | .provider => [.md ⟨"meta.pkg.crossplane.io/v1/Provider", "decoy", .none⟩,
+                  .ob ⟨"apiextensions.k8s.io/v1/CustomResourceDefinition", "decoys.example.org"⟩]
+  | .configuration => [.md ⟨"meta.pkg.crossplane.io/v1/Configuration", "decoy", .none⟩,
+                  .ob ⟨"apiextensions.crossplane.io/v1/Composition", "decoys.example.org"⟩]
+  | .function => [.md ⟨"meta.pkg.crossplane.io/v1/Function", "decoy", .none⟩,
+                  .ob ⟨"apiextensions.k8s.io/v1/CustomResourceDefinition", "decoys.example.org"⟩]
 
-def preEntry (r : Rev) : String → Option Entry
-  | "warm" => some (.content r.docs)
+/-- one entry of the scenario's layer description: `n` layers (default 1) with this
+annotation and these tar entries, in order (`c`: `real` = the revision's declared stream,
+`decoy`, anything else = a file that is no package stream) -/
+def layersOf (t : PType) (docs : List Doc) (j : Json) : List Layer :=
+  let ann := match str j "ann" with | "base" => Ann.base | "" => .none | _ => .other
+  let entries : List (String × List Doc) := (arr j "files").map fun f =>
+    (str f "name", match str f "c" with | "real" => docs | "decoy" => decoyDocs t | _ => [.bad])
+  List.replicate (max 1 (nat j "n")) (Layer.ofTar ann entries)
+
+/-- one run-length encoded line token of the scenario: `sep` (exactly `---`), `sepc` (blanks / a comment follow), `badsep`, `comment`,
+`blank`, `b<i>`, each optionally followed by `x<count>` -/
+def linesOfTok (s : String) : List Line :=
+  let (t, n) := match s.splitOn "x" with
+    | [t, c] => (t, c.toNat?.getD 1)
+    | _ => (s, 1)
+  let l : Line := match t with
+    | "sep" => .sep true
+    | "sepc" => .sep false
+    | "badsep" => .badsep
+    | "comment" => .comment
+    | "blank" => .blank
+    | _ => .body ((t.drop 1).toNat?.getD 9999)
+  List.replicate n l
+
+/-- the documents of a revision's stream: computed from its lines (`docsOfLines`: separator
+rule, empty documents skipped); a malformed separator makes the stream undecodable.  Scenarios
+without `lines` (the `xpkg build` test renders its own stream) fall back to the table. -/
+def streamDocs (j : Json) : List Doc :=
+  let tbl := (arr j "docs").map docOf
+  let toks := strs j "lines"
+  if toks.isEmpty then tbl
+  else match docsOfLines tbl (toks.flatMap linesOfTok) with
+    | some ds => ds
+    | none => [.bad]
+
+def revOf (j : Json) : Rev :=
+  let docs := streamDocs j
+  { ptype := ptypeOf (str j "ptype"), key := str j "key", skey := str j "skey", source := str j "source",
+    layers := (arr j "layers").flatMap (layersOf (ptypeOf (str j "ptype")) docs),
+    never := bool j "never", ignore := bool j "ignore", resolve := bool j "resolve" }
+
+/-- the stream the scenario says the image declares (what the Go-side monitors judge against) -/
+def declaredOf (j : Json) : List Doc := streamDocs j
+
+/-- the cache entry a scenario starts with: the DECLARED stream (`docs` of the scenario; for a
+valid image that is `r.docs`), whole or cut -/
+def preEntry (decl : List Doc) : String → Option Entry
+  | "warm" => some (.content decl)
   | "nohdr" => some (.broken false)
   | "hdr" => some (.broken true)
   | _ => none
@@ -73,19 +125,21 @@ def stepOf (j : Json) : Except String Step :=
   if str j "k" == "cfg" then
     .ok (.configs ((arr j "cfgs").map cfgOf))
   else if str j "k" == "sig" then
-    .ok (.verify i { getE := getEOf (str f "getE"), stat := str f "stat" != "", listErr := str j "sigCfg" == "err" })
+    .ok (.verify i { getE := getEOf (str f "getE"), stat := str f "stat" != "", listErr := str j "sigCfg" != "" })
   else
     let o := obj j "o"
     match leftOf (str o "left"), envOf (str f "env") with
     | none, _ => .error s!"unknown leftover class {str o "left"}"
     | _, .error e => .error e
     | some left, .ok env =>
-      let upd := match str f "upd" with | "conflict" => Upd.conflict | "" => .ok | _ => .err
+      let updOf : String → Upd := fun s => match s with | "conflict" => Upd.conflict | "" => .ok | _ => .err
+      let upd := updOf (str f "upd")
       .ok (.reconcile i (bool j "active") (bool j "deleted")
         { init := bool f "init", read := int f "read" ≥ 0, store := str f "store" != "",
           seen := bool o "seen", left := left, get := bool f "get", del := bool f "del", upd := upd, est := bool f "est",
           estConflict := str f "estC" == "conflict", getE := getEOf (str f "getE"), fin := wErrOf (str f "fin"),
-          stat := str f "stat" != "", env := env })
+          stat := str f "stat" != "", env := env,
+          pullCfg := str f "pullCfg" != "", rel := updOf (str f "rel"), dep := updOf (str f "dep") })
 
 def healthStr : Health → String
   | .none => "none" | .healthy => "healthy" | .unhealthy => "unhealthy" | .unknown => "unknown" | .awaiting => "awaiting"
@@ -93,11 +147,11 @@ def healthStr : Health → String
 def verifStr : Verif → String
   | .none => "none" | .succeeded => "succeeded" | .skipped => "skipped" | .failed => "failed" | .incomplete => "incomplete"
 
-def entryStr (r : Rev) : Option Entry → String
+def entryStr (decl : List Doc) : Option Entry → String
   | none => "absent"
   | some (.broken false) => "nohdr"
   | some (.broken true) => "hdr"
-  | some (.content ds) => if ds == r.docs then "full" else "other"
+  | some (.content ds) => if ds == decl then "full" else "other"
 
 def objJson (o : Obj) : Json := Json.arr #[.str o.gvk, .str o.name]
 
@@ -106,26 +160,26 @@ def stepIdx : Step → Nat
   | .verify i _ => i
   | .configs _ => 0
 
-def obsJson (revs : List Rev) (w : World) (i : Nat) (o : Out) : Json :=
+def obsJson (revs : List Rev) (decls : List (List Doc)) (w : World) (i : Nat) (o : Out) : Json :=
   let st := (w.sts[i]?).getD {}
   let live := st.present
   Json.mkObj [
     ("res", .str o.res),
     ("est", match o.est with | none => Json.null | some os => Json.arr (os.map objJson).toArray),
     ("control", .bool o.control),
-    ("cache", Json.arr (revs.map fun r => Json.str (entryStr r (w.cache r.id))).toArray),
+    ("cache", Json.arr ((revs.zip decls).map fun (r, d) => Json.str (entryStr d (w.cache r.id))).toArray),
     ("healthy", .str (if live then healthStr st.health else "none")),
     ("verified", .str (if live then verifStr st.verif else "none")),
     ("refs", .num (if live then st.refs else 0)),
     ("exists", .bool live)]
 
 /-- model-side property verdict of one step taken from world `w` -/
-def stepOk (feature : Bool) (revs : List Rev) (w : World) (s : Step) (o : Out) : Bool :=
+def stepOk (feature : Bool) (revs : List Rev) (decls : List (List Doc)) (w : World) (s : Step) (o : Out) : Bool :=
   let i := stepIdx s
   match o.est, revs[i]? with
   | some os, some r =>
-    (match parse r.docs with
-     | some p => os == p.objs && specOK r.ptype p && (r.ignore || compatible p)
+    (match parse (decls[i]?.getD []) with
+     | some p => os == p.objs && specOK r.ptype p && (r.ignore || compatible p) && lintS r.ptype p == lint r.ptype p
      | none => false) &&
     (!feature || ((w.sts[i]?).map (fun st => st.verif.isTrue)).getD false) &&
     (match s with | .reconcile _ _ _ f => f.env == .none | _ => true)
@@ -135,46 +189,75 @@ def stepOk (feature : Bool) (revs : List Rev) (w : World) (s : Step) (o : Out) :
 verdict.  A step flagged `par` ran concurrently with the next one: both are taken in
 sequence (they commute, `reconciles_commute`) and both observations show the world
 after the pair. -/
-def runObs (feature : Bool) (revs : List Rev) : World → List (Step × Bool) → List Json × Bool
+def runObs (feature : Bool) (revs : List Rev) (decls : List (List Doc)) : World → List (Step × Bool) → List Json × Bool
   | _, [] => ([], true)
   | w, (s1, true) :: (s2, _) :: ss =>
     let (w1, o1) := w.step true feature revs s1
     let (w2, o2) := w1.step true feature revs s2
-    let ok := stepOk feature revs w s1 o1 && stepOk feature revs w1 s2 o2
-    let (js, ok') := runObs feature revs w2 ss
-    (obsJson revs w2 (stepIdx s1) o1 :: obsJson revs w2 (stepIdx s2) o2 :: js, ok && ok')
+    let ok := stepOk feature revs decls w s1 o1 && stepOk feature revs decls w1 s2 o2
+    let (js, ok') := runObs feature revs decls w2 ss
+    (obsJson revs decls w2 (stepIdx s1) o1 :: obsJson revs decls w2 (stepIdx s2) o2 :: js, ok && ok')
   | w, (s, _) :: ss =>
     let (w', o) := w.step true feature revs s
-    let ok := stepOk feature revs w s o
-    let (js, ok') := runObs feature revs w' ss
-    (obsJson revs w' (stepIdx s) o :: js, ok && ok')
+    let ok := stepOk feature revs decls w s o
+    let (js, ok') := runObs feature revs decls w' ss
+    (obsJson revs decls w' (stepIdx s) o :: js, ok && ok')
 
-def buildObs (revs : List Rev) : Json × Bool :=
-  match revs with
-  | r :: _ =>
-    match parse r.docs with
+def buildObs (revs : List Rev) (decls : List (List Doc)) : Json × Bool :=
+  match revs, decls with
+  | r :: _, d :: _ =>
+    match parse d with
     | some p =>
-      let built := lint r.ptype p
+      let built := lintS r.ptype p
       let objs := p.objs.mergeSort (fun a b => a.gvk ++ a.name ≤ b.gvk ++ b.name)
       (Json.mkObj [("built", .bool built), ("same", .bool built), ("objs", Json.arr ((if built then objs else []).map objJson).toArray)], true)
     | none => (Json.mkObj [("built", .bool false), ("same", .bool false), ("objs", Json.arr #[])], true)
-  | [] => (Json.null, true)
+  | _, _ => (Json.null, true)
+
+def rresOf : String → RRes
+  | "eof" => .eof
+  | "srcErr" => .srcErr
+  | _ => .ok
+
+def rresStr : RRes → String
+  | .ok => "ok" | .eof => "eof" | .srcErr => "srcErr" | .writeErr => "writeErr"
+
+def natsJson (xs : List Nat) : Json := Json.arr (xs.map fun (n : Nat) => Json.num (n : Lean.JsonNumber)).toArray
+
+/-- kind `tee`: the model of `teeReadCloser` on the scripted source / capped writer -/
+def teeObs (j : Json) : Json × Bool :=
+  let evs : List SrcEv := (arr j "events").map fun e => ⟨(arr e "data").map (fun d => (d.getNat?.toOption).getD 0), rresOf (str e "res")⟩
+  let cap : Option Nat := if int j "cap" < 0 then none else some (int j "cap").toNat
+  let t : Tee := { src := evs, cap := cap }
+  let (rs, t') := Tee.reads true (nat j "reads") t
+  -- model-side verdict: a clean result never follows an error
+  let rec okSeq : List (List Nat × RRes) → Bool → Bool
+    | [], _ => true
+    | (d, r) :: rest, failed => (if failed then d.isEmpty && r.isErr else true) && okSeq rest (failed || r.isErr)
+  (Json.mkObj [
+    ("reads", Json.arr (rs.map fun (d, r) => Json.arr #[Json.num (d.length : Lean.JsonNumber), Json.str (rresStr r)]).toArray),
+    ("seen", natsJson (seenBytes rs)),
+    ("out", natsJson t'.out)], okSeq rs false && seenBytes rs == t'.out)
 
 def handler : Handler := fun scn =>
   let revs := (arr scn "revs").map revOf
   if str scn "kind" == "ids" then
     .ok (Json.mkObj [("ok", .bool true)], true, "")
+  else if str scn "kind" == "tee" then
+    let (j, ok) := teeObs (obj scn "tee")
+    .ok (j, ok, if ok then "" else "C15:model-tee-error-not-sticky")
   else if str scn "kind" == "build" then
-    let (j, ok) := buildObs revs
+    let (j, ok) := buildObs revs ((arr scn "revs").map declaredOf)
     .ok (j, ok, "")
   else do
     let steps ← (arr scn "steps").mapM fun j => do
       let s ← stepOf j
       pure (s, bool j "par")
     let pres := (arr scn "revs").map fun j => str j "pre"
-    let cache : Cache := (revs.zip pres).foldl (fun c (r, pre) => match preEntry r pre with | some e => c.put r.id e | none => c) Cache.empty
+    let decls := (arr scn "revs").map declaredOf
+    let cache : Cache := ((revs.zip decls).zip pres).foldl (fun c ((r, d), pre) => match preEntry d pre with | some e => c.put r.id e | none => c) Cache.empty
     let w : World := { cache := cache, sts := revs.map fun _ => {}, cfgs := (arr scn "cfgs").map cfgOf }
-    let (js, ok) := runObs (bool scn "feature") revs w steps
+    let (js, ok) := runObs (bool scn "feature") revs decls w steps
     .ok (Json.mkObj [("steps", Json.arr js.toArray)], ok, if ok then "" else "C15:model-installed-not-declared")
 
 end Xp.C15
